@@ -3,6 +3,7 @@ C02 — a guard sees exactly what the previous guard for that key left.
 -/
 import Lockable.Proofs.Frame
 import Lockable.Proofs.SpecTrace2
+import Lockable.Proofs.Usable
 namespace Lockable
 
 /-- **Frame**: in every reachable state, no atomic action other than a guard method executed on a guard
@@ -91,5 +92,24 @@ that key ("nothing except an operation on a guard for that key ever changes, dro
 theorem C02_history_only_guard_writes (k : Nat) (e : SEv) (sp sp₁ : Spec) (he : applyEv sp e = some sp₁)
     (hne : sp₁.vals k ≠ sp.vals k) : ∃ h v, e = .write h k v ∧ sp.held k = some h :=
   vals_change_only_by_guard_write k e sp sp₁ he hne
+
+/-- **The guard a lock call returns sees the value the map holds** — at the level of the public calls, in every state reachable by any
+sequence of API calls: when a plain `blocking_lock`/`async_lock`/`try_lock` (either variant `v`) answers with a guard, `guard.value()`
+answers exactly the value the atomic specification's plain map has for the key before the call (what the last guard of that key
+stored, `C02_history_value`), and the call itself changes no stored value of any key (`lock_plain_vals`).
+Hypotheses: the handle id is unused (not in `hs`, not among the guards owned by a suspended callback). -/
+theorem C02_plain_lock_reads_current (kind : Kind) (cs : List Call) (v : Variant) (h k h0 : Nat) :
+    let a := cs.foldl (fun a c => (a.exec c).1) (Api.init kind)
+    a.s.hs h = none → a.ownedBySusp h = false → (a.exec (.lock v h k .none h0)).2.res.isGuard = true →
+    ((a.exec (.lock v h k .none h0)).1.exec (.op h .value)).2.res = .out (.optVal ((absSpec a.s).vals k)) ∧
+    ∀ k', absVal (a.exec (.lock v h k .none h0)).1.s k' = absVal a.s k' := by
+  intro a hf hs hg
+  exact ⟨lock_plain_reads a (ainv_execs cs _ (ainv_init kind)).inv v h k h0 hf hs hg, fun k' => lock_plain_vals a v h k h0 k'⟩
+
+/-- non-vacuity: guard 1 stores 10 under key 1 and is dropped; the next lock of key 1 returns a guard, which reads `some 10` -/
+example :
+    let a := ((((Api.init .lru).exec (.lock .wait 1 1 .none 100)).1.exec (.op 1 (.insert 10))).1.exec (.drop 1)).1
+    a.s.hs 2 = none ∧ a.ownedBySusp 2 = false ∧ (a.exec (.lock .try 2 1 .none 100)).2.res.isGuard = true ∧
+    (absSpec a.s).vals 1 = some 10 := by decide
 
 end Lockable
